@@ -166,7 +166,60 @@ def rule_r4(chk):
             "simultaneity is silently reordered and reported sequential"), bm.loc(r))
 
 
+def rule_r5(chk, rid="C16-R5"):
+    chk.rule(rid, "the incidence matrix that is_sequential / sequentialize work on records exactly the SAME-PERIOD occurrences of left-hand-side "
+             "variables: entry (i, j) is set iff equation i contains the token (j, shift 0) with j a left-hand-side name - lags and leads of "
+             "left-hand variables and right-hand-only names are no dependency (a lead counted as one makes a valid order look cyclic): "
+             "Sequential.incidence_matrix composed with equations.calculate_incidence_matrix, evaluated finitely", floor=1, shape_independent=True)
+    from .. import fin
+    sm = chk.repo.mod(SMOD)
+    em = chk.repo.mod("irispie.equations")
+    f = sm.func("Sequential.incidence_matrix")
+    g = em.func("calculate_incidence_matrix")
+    chk.saw(sm, "Sequential.incidence_matrix")
+    chk.saw(em, "calculate_incidence_matrix")
+    tok = lambda q, s_: fin.FinObj(qid=q, shift=s_)
+    eqs = [
+        [(0, 0), (1, -1), (2, 1), (3, 0)],
+        [(1, 0), (0, 0), (3, 0), (2, -2)],
+        [(2, 0), (1, 1), (0, -2), (4, 0)],
+        [(0, 1), (1, 2), (2, -1)],
+    ]
+    num_lhs = 3
+    equations = tuple(fin.FinObj(incidence=tuple(tok(*t) for t in e)) for e in eqs)
+    me = fin.FinObj(lhs_names=("a", "b", "c"), equations=equations, num_lhs_names=num_lhs, num_equations=len(eqs),
+                    _invariant=fin.FinObj(num_lhs_names=num_lhs, num_equations=len(eqs)))
+    funcs = dict(fin.MATRIX_FUNCS)
+    def calc(*a, **k):
+        ps = [x.arg for x in g.args.posonlyargs + g.args.args]
+        bound = dict(zip(ps, a))
+        bound.update(k)
+        for nm, d in zip(reversed(ps), reversed(g.args.defaults)):
+            bound.setdefault(nm, "bool")
+        return fin.run_function(g, bound, funcs)
+    funcs["_equations.calculate_incidence_matrix"] = calc
+    try:
+        got = fin.run_function(f, {params(f)[0]: me}, funcs)
+        rows = [[bool(x) for x in r] for r in got.rows]
+    except (fin.NotFinite, fin.Raised, TypeError, AttributeError, IndexError) as ex:
+        chk.undecided(rid, "sequentials.main.Sequential.incidence_matrix", f"not finitely evaluable: {type(ex).__name__}: {ex}", sm.loc(f))
+        return
+    want = [[any(q == j and s_ == 0 for q, s_ in e) for j in range(num_lhs)] for e in eqs]
+    bad = None
+    for i, (r, w) in enumerate(zip(rows, want)):
+        for j, (a, b) in enumerate(zip(r, w)):
+            if a != b and bad is None:
+                occ = [t for t in eqs[i] if t[0] == j]
+                bad = (f"equation {i} with tokens {eqs[i]}: entry ({i}, {j}) is {a}, but variable {j} occurs there as {occ or 'nothing'} "
+                       f"- {'a lag/lead is counted as a same-period dependency' if a else 'a same-period dependency is lost'}")
+    if len(rows) != len(eqs) or any(len(r) != num_lhs for r in rows):
+        bad = f"matrix is {len(rows)}x{len(rows[0]) if rows else 0}, expected {len(eqs)}x{num_lhs}"
+    chk.ob(rid, "sequentials.main.Sequential.incidence_matrix", bad is None, bad or f"{len(eqs)} equations x {num_lhs} left-hand names: exactly the shift-0 occurrences are marked",
+           sm.loc(f), sure=True)
+
+
 def run(chk):
+    chk.guard(rule_r5, chk)
     chk.rule("C16-R1", "in Invariant.reorder_equations every store to self.* (and every call of a self-mutating collector) is reached "
              "only on paths where sorted(new_order) == list(range(num_equations)) held; the failing branch raises", floor=3)
     chk.rule("C16-R2", "Sequential.sequentialize obtains the order from sequentialize_strictly before calling reorder_equations with "
